@@ -7,13 +7,14 @@ def run(ctx, rep):
     emitrules.report(
         ctx,
         rep,
-        {"O7": "C07-R1", "O8": "C07-R2", "O9": "C07-R3", "O12a": "C07-R4b", "O12b": "C07-R4c"},
+        {"O7": "C07-R1", "O8": "C07-R2", "O9": "C07-R3", "O12a": "C07-R4b", "O12b": "C07-R4c", "O13": "C07-R1b"},
         {
             "C07-R1": "a throw restores the operand depth recorded by TRY_START (enclosing computations are undisturbed)",
+            "C07-R1b": "what each context on the compiler's context stack declares (operands held, handler record registered, finally block pending) is what the statement branch really set up whenever it compiles a nested statement, so that break/continue/return undo exactly that",
             "C07-R2": "every way out of a protected region (break/continue/return) removes its handler record, so no later throw lands in a stale handler",
             "C07-R3": "nested run loops used by natives notice when a throw unwinds below them, and call/apply never run the caller's frames",
             "C07-R4b": "finally blocks inlined at break/continue are chosen by the jump's target (a try that encloses the loop is not run at the break)",
-            "C07-R4c": "try_stack/loop_stack are per function (a return in a nested function does not inline the enclosing function's finally)",
+            "C07-R4c": "the context stack and pending labels are per function (a return in a nested function does not inline the enclosing function's finally)",
         },
     )
     exceptions.rule_handler_stack_mutations(ctx, rep, "C07-R2c")
